@@ -147,6 +147,7 @@ type world struct {
 	// formatted counts successful formatter runs per file
 	formatted map[string]int
 	out       *kernel.Outcome
+	outDir    string
 }
 
 func (w *world) classify(name string, args []string) (tool, kind, file string) {
@@ -188,7 +189,7 @@ func (e exitErr) Error() string { return fmt.Sprintf("exit status %d", e.code) }
 
 func (w *world) exec(name string, args []string, dir string) ([]byte, error) {
 	tool, kind, file := w.classify(name, args)
-	w.events = append(w.events, execEvent{G: verifsim.CurrentG(), Cmd: strings.Join(append([]string{name}, args...), " "), Tool: tool, Kind: kind, File: file})
+	w.events = append(w.events, execEvent{G: verifsim.CurrentG(), Cmd: strings.ReplaceAll(strings.Join(append([]string{name}, args...), " "), w.outDir, "<out>"), Tool: tool, Kind: kind, File: file})
 	base := filepath.Base(name)
 	if base == "which" || base == "command" || base == "type" || base == "whereis" {
 		if !w.p.Which {
@@ -264,11 +265,13 @@ func (c20) Execute(env *kernel.Env, raw json.RawMessage, ch *kernel.Choices) *ke
 			results = append(results, &reqResult{Req: r})
 		}
 	}
+	w.outDir = filepath.Join(env.Scratch, fmt.Sprintf("c20-out-%d", os.Getpid()))
 	verifsim.ExecHook = w.exec
 	verifsim.LookPathHook = w.lookPath
 	defer func() { verifsim.ExecHook, verifsim.LookPathHook = nil, nil }()
 
 	var schedule strings.Builder
+	outDir := filepath.Join(env.Scratch, fmt.Sprintf("c20-out-%d", os.Getpid()))
 	sim := &verifsim.Sim{
 		Pick: func(site string, cur int, cands []int) int {
 			if cands[0] == cur {
@@ -288,6 +291,7 @@ func (c20) Execute(env *kernel.Env, raw json.RawMessage, ch *kernel.Choices) *ke
 			if i := strings.Index(ev, " 0x"); i >= 0 {
 				ev = ev[:i]
 			}
+			ev = strings.ReplaceAll(ev, outDir, "<out>") // per-process scratch path
 			schedule.WriteString(ev)
 			schedule.WriteByte(';')
 		},
@@ -316,7 +320,7 @@ func (c20) Execute(env *kernel.Env, raw json.RawMessage, ch *kernel.Choices) *ke
 			}
 		})
 	case "saveoutputs":
-		dir := filepath.Join(env.Scratch, fmt.Sprintf("c20-out-%d", os.Getpid()))
+		dir := outDir
 		os.MkdirAll(dir, 0o755)
 		runErr = sim.Run(func() {
 			saveErr = callSaveOutputs(dir, p.Callers)
